@@ -43,6 +43,9 @@ T = {
  "C08": ("reference model (exponential map) + order-of-accuracy monitor + cross-filter dead-reckoning monitor + re-integration history check",
          "Runtime monitoring: constant rates (1e-2..10 rad/s, dt 1e-3..5e-2, up to 300 steps) through AngularRate.update and the batch constructor vs q0*exp(w n dt/2); series orders 0-6 vs the Taylor-remainder bound and monotone improvement; one dead-reckoning step with a null accelerometer through Madgwick/Mahony/AQUA updateIMU+updateMARG, EKF.f, ROLEQ.attitude_propagation, AngularRate order 1 vs the normalised first-order step in each filter's convention; rate histories recovered by angular_velocities() and re-integrated.",
          "NumPy; exponential map of vt/ref/quat.py; Taylor remainder with factor 4; recovered rates are first order (x^3/12 budget)", "5/C08"),
+ "C03": ("invariant monitors on every estimator's output (shape, real dtype, finite, unit norm / proper rotation) + online monitor on each update/estimate step through probes",
+         "Runtime monitoring: 46 estimator configurations (all 19 exported classes x architectures x frames x representations) are constructed over histories of 2-80 samples of six kinds (random inconsistent over 5 decades, consistent, moving, exactly level / inverted / vertical) with default and randomly drawn valid parameters (gains, 1 Hz-2 kHz, noise variances over 4 decades, dips, weights); every output row and every intermediate step is checked.",
+         "NumPy; validity only; pose singularities of published closed forms and UKF's LinAlgError are known findings keyed by (estimator, clause, pose kind)", "5/C03"),
 }
 
 def main():
